@@ -293,6 +293,36 @@ fn contents(sc: &Scenario) -> Outcome {
                 return out;
             }
         }
+        if !methods && sc.mix == 1 {
+            // receiving side: a response carrying an attribute of this type completes its request, a
+            // request / indication carrying it is handed over, whatever the type is
+            let mut a2 = StunAgent::builder(t, local_addr()).build();
+            let sw2 = Software::new("c").unwrap();
+            let idv = stid(700_000 + typ as usize);
+            let mut rq = Message::builder(MessageType::from_class_method(MessageClass::Request, BINDING), idv.into());
+            rq.add_attribute(&sw2).unwrap();
+            let sent = a2.send(rq, dest, base).is_ok();
+            let mut verdicts = Vec::new();
+            for (class, from) in [(1u8, saddr(0, 7)), (if typ % 2 == 0 { 2 } else { 3 }, dest)] {
+                let mut m = wire::encode_header(class, 1, if class >= 2 { idv } else { stid(710_000 + typ as usize) }, 0);
+                wire::append_raw(&mut m, 0x8022, b"peer");
+                wire::append_raw(&mut m, typ, &value);
+                let msg = Message::from_bytes(&m).unwrap();
+                let kind = match a2.handle_stun(msg, from) {
+                    HandleStunReply::IncomingStun(_) => 1u8,
+                    HandleStunReply::StunResponse(_) => 2,
+                    HandleStunReply::Drop => 0,
+                };
+                verdicts.push((kind, a2.is_validated_peer(from)));
+            }
+            let want = vec![(1u8, true), (2, true)];
+            let still = a2.request_transaction(idv.into()).is_some();
+            if !sent || verdicts != want || still {
+                out.breaches.push(("C05", "contents/response-with-attribute".into(), format!("an indication / a response carrying an attribute of type {typ:#06x} (length {}) is not handled like any other (handed over; delivered and the request completed)", sc.kind), format!("{want:?}, request completed"), format!("{verdicts:?}, still outstanding: {still}")));
+                return out;
+            }
+            continue;
+        }
         let mut n_tx = 0;
         match a.send(b, dest, base) {
             Ok(tr) => {
@@ -441,7 +471,11 @@ impl STx {
 
 fn transactions(sc: &Scenario) -> Outcome {
     let base = base_instant();
-    let at = |ms: i64| base + Duration::from_millis(ms as u64);
+    // all times of this family are in MICROSECONDS after the base: request i is sent `step_us` after
+    // request i-1 (sc.noise-independent; 0, 137 or 1000 us by scenario), so that deadlines of different
+    // requests may lie less than a millisecond apart
+    let at = |us: i64| base + Duration::from_micros(us as u64);
+    let step_us: i64 = match sc.kind { 5 => 137, 6 => 1000, 7 => 333, _ => 0 };
     let t = if sc.tcp { TransportType::Tcp } else { TransportType::Udp };
     let mut a = StunAgent::builder(t, local_addr()).build();
     let mut noise = Noise::new(sc.noise, sc.tcp);
@@ -456,11 +490,12 @@ fn transactions(sc: &Scenario) -> Outcome {
     }
     for i in 0..sc.n {
         noise.tick(base);
-        let to = saddr(sc.kind, i % 7);
+        let to = saddr(4, i % 7);
         let sw = Software::new(&format!("scale-{i}")).unwrap();
         let b = build_req(i, &sw);
         let w = req_wire(i);
-        match a.send(b, to, at(0)) {
+        let sent_at = i as i64 * step_us;
+        match a.send(b, to, at(sent_at)) {
             Ok(tr) => {
                 out.transcript.push(h(&(tr.data(), tr.from, tr.to)));
                 if tr.data() != &w[..] {
@@ -480,13 +515,14 @@ fn transactions(sc: &Scenario) -> Outcome {
             }
         }
         // answer pattern: 0 none, 1 every third request at 3 ms, 2 all of them at 1 ms, 3 every other at 600+i ms
+        let last_send = (sc.n as i64 - 1) * step_us;
         let answer_at = match sc.via {
-            1 if i % 3 == 0 => Some(3),
-            2 => Some(1),
-            3 if i % 2 == 0 => Some(600 + i as i64),
+            1 if i % 3 == 0 => Some(last_send + 3_000),
+            2 => Some(last_send + 1_000),
+            3 if i % 2 == 0 => Some(last_send + (600 + i as i64) * 1_000),
             _ => None,
         };
-        live.insert(stid(i), STx { to, wire: w, n_tx: 1, last_tx: 0, rto: rto as i64, retransmits: n, last: last as i64, answer_at });
+        live.insert(stid(i), STx { to, wire: w, n_tx: 1, last_tx: sent_at, rto: rto as i64 * 1_000, retransmits: n, last: last as i64 * 1_000, answer_at });
     }
     // every request is outstanding and reports its peer
     for (k, x) in &live {
@@ -496,7 +532,9 @@ fn transactions(sc: &Scenario) -> Outcome {
             None => breach!("C05", "scale/outstanding-set", "a request that was sent and not completed is not outstanding", "Some".to_string(), format!("None with {} requests outstanding", sc.n)),
         }
     }
-    let mut now: i64 = 0;
+    let mut now: i64 = (sc.n as i64 - 1).max(0) * step_us;
+    // events that fell due while later requests were still being sent are served at the first poll
+    let start = now;
     let mut guard = 0usize;
     while !live.is_empty() {
         guard += 1;
@@ -539,8 +577,8 @@ fn transactions(sc: &Scenario) -> Outcome {
                     };
                     let x = live.get_mut(&k).unwrap();
                     let (when, is_timeout) = x.next(sc.tcp);
-                    if is_timeout || when != now {
-                        breach!("C06", "scale/retransmission-time", "a retransmission was produced at an instant the schedule does not name", format!("{} at +{when}ms", if is_timeout { "time-out" } else { "retransmission" }), format!("retransmission #{} at +{now}ms ({} requests)", x.n_tx, sc.n));
+                    if is_timeout || when > now || (when < now && now != start) {
+                        breach!("C06", "scale/retransmission-time", "a retransmission was produced at an instant the schedule does not name", format!("{} at +{when}us", if is_timeout { "time-out" } else { "retransmission" }), format!("retransmission #{} at +{now}us ({} requests)", x.n_tx, sc.n));
                     }
                     if tr.from != local_addr() || tr.to != x.to || tr.transport != t {
                         breach!("C18", "scale/retransmission-addressing", "a retransmission is not addressed as the request was", format!("{} -> {}", local_addr(), x.to), format!("{} -> {}", tr.from, tr.to));
@@ -555,8 +593,8 @@ fn transactions(sc: &Scenario) -> Outcome {
                         breach!("C05", "scale/timeout-of-completed", "a time-out was reported for a request that is not outstanding", "an outstanding id".to_string(), format!("{k:#x}"));
                     };
                     let (when, is_timeout) = x.next(sc.tcp);
-                    if !is_timeout || when != now {
-                        breach!("C06", "scale/timeout-time", "a time-out was reported at an instant the schedule does not name", format!("{} at +{when}ms", if is_timeout { "time-out" } else { "retransmission" }), format!("time-out at +{now}ms after {} transmissions ({} requests)", x.n_tx, sc.n));
+                    if !is_timeout || when > now || (when < now && now != start) {
+                        breach!("C06", "scale/timeout-time", "a time-out was reported at an instant the schedule does not name", format!("{} at +{when}us", if is_timeout { "time-out" } else { "retransmission" }), format!("time-out at +{now}us after {} transmissions ({} requests)", x.n_tx, sc.n));
                     }
                     *done.entry(k).or_insert(0) += 1;
                 }
@@ -565,19 +603,19 @@ fn transactions(sc: &Scenario) -> Outcome {
                     breach!("C05", "scale/cancelled-unasked", "a request was reported cancelled although cancel was never called", "no such event".to_string(), format!("{k:#x}"));
                 }
                 StunAgentPollRet::WaitUntil(i) => {
-                    let w = if i >= base { (i - base).as_nanos() as i128 } else { -1 };
+                    let w = if i >= base { (i - base).as_nanos() as i128 } else { -1 }; // nanoseconds
                     out.transcript.push(h(&(3u8, w)));
                     // everything scheduled up to now must have happened
                     if let Some((k, x)) = live.iter().find(|(_, x)| x.next(sc.tcp).0 <= now) {
                         let (when, is_timeout) = x.next(sc.tcp);
-                        breach!("C06", "scale/event-missed", "poll answered WaitUntil although a scheduled event of an outstanding request was due", format!("{} of {k:#x} at +{when}ms", if is_timeout { "time-out" } else { "retransmission" }), format!("WaitUntil(+{w}ns) at +{now}ms"));
+                        breach!("C06", "scale/event-missed", "poll answered WaitUntil although a scheduled event of an outstanding request was due", format!("{} of {k:#x} at +{when}us", if is_timeout { "time-out" } else { "retransmission" }), format!("WaitUntil(+{w}ns) at +{now}us"));
                     }
                     let next_ev = live.values().map(|x| x.next(sc.tcp).0).min();
                     let next_ans = live.values().filter_map(|x| x.answer_at).min();
                     match next_ev {
                         Some(e) => {
-                            if w != e as i128 * 1_000_000 {
-                                breach!("C06", "scale/wait-not-earliest", "WaitUntil(t) is not the earliest instant at which an outstanding request needs service", format!("+{e}ms"), format!("+{w}ns with {} outstanding", live.len()));
+                            if w != e as i128 * 1_000 {
+                                breach!("C06", "scale/wait-not-earliest", "WaitUntil(t) is not the earliest instant at which an outstanding request needs service", format!("+{e}us"), format!("+{w}ns with {} outstanding", live.len()));
                             }
                             now = match next_ans {
                                 Some(t) if t < e => t.max(now + 1),
@@ -600,7 +638,7 @@ fn transactions(sc: &Scenario) -> Outcome {
         breach!("C05", "scale/lost-request", "not every request completed", sc.n.to_string(), done.len().to_string());
     }
     // idle agent afterwards: no event
-    if !matches!(a.poll(at(now + 1)), StunAgentPollRet::WaitUntil(_)) {
+    if !matches!(a.poll(at(now + 1_000)), StunAgentPollRet::WaitUntil(_)) {
         breach!("C05", "scale/event-after-completion", "an idle agent produced an event", "WaitUntil".to_string(), "an event".to_string());
     }
     out
@@ -687,6 +725,12 @@ pub fn scenarios(prop: &str, thorough: bool) -> Vec<Scenario> {
             for block in 0..16usize {
                 v.push(Scenario { family: "contents".into(), tcp, kind: 255, n: block, via: 0, mix: 0, noise: false });
             }
+            // every attribute type in a response / indication (mix 1 = receiving side)
+            for len in [0u8, 4, 8] {
+                for block in 0..256usize {
+                    v.push(Scenario { family: "contents".into(), tcp, kind: len, n: block, via: 0, mix: 1, noise: false });
+                }
+            }
         }
     }
     if prop == "C18" {
@@ -716,7 +760,16 @@ pub fn scenarios(prop: &str, thorough: bool) -> Vec<Scenario> {
                     let every = !tcp && mix == 1 && via == 1;
                     let sizes: Vec<usize> = if every { (1..=130).chain([255, 256, 257, tx_max]).collect() } else { vec![1, 2, 3, 16, 17, 64, 65, 128, 129, tx_max] };
                     for n in sizes {
-                        v.push(Scenario { family: "tx".into(), tcp, kind: 4, n, via, mix, noise: false });
+                        // kind = spacing of the sends: 4 all at one instant, 5 137 us apart, 6 1 ms apart, 7 333 us apart
+                        let kind = 4 + ((n + via as usize + mix as usize) % 4) as u8;
+                        v.push(Scenario { family: "tx".into(), tcp, kind, n, via, mix, noise: false });
+                        if n <= 17 {
+                            for k in 4..8u8 {
+                                if k != kind {
+                                    v.push(Scenario { family: "tx".into(), tcp, kind: k, n, via, mix, noise: false });
+                                }
+                            }
+                        }
                     }
                 }
             }
